@@ -3029,3 +3029,39 @@ M('C20', 'yield-from-sessionkeys-after-container', PGP, "            for sig in 
   "            yield from self._signatures\n            yield self.message\n            yield from self._sessionkeys\n", 'C20.1')
 T('C20', 'twin-ops-flag-operands-swapped', PK, "        self.nested = (packet[0] == 1)\n", "        self.nested = (1 == packet[0])\n")
 M('C20', 'ops-reader-flag-two', PK, "        self.nested = (packet[0] == 1)\n", "        self.nested = (2 == packet[0])\n", 'C20.6')
+
+
+# =============================================================================================== C02 / C05: independent stress patches
+# selftest/patches/G2-*.diff: 38 behaviour-preserving refactorings (three sub-agents that never saw the rules; each verified against the
+# test-suite and a differential probe) and 24 property-breaking mutants (each with a witness input).  Every twin must stay silent under
+# BOTH checks; R2-twin03/05/08/10 use constructs outside the byte-term model and answer exit 2 (twin-unseen), never a violation.
+_G2_TWINS = [('C02-twin%02d' % k, w) for k, w in enumerate((
+    'sign-aliases-ifexp-merged-ifs', 'hashdata-keyframe-helper-trailer-literal', 'sign-revoke-revoker-ifexp-guards', 'certify-bound-addnew-module-frozenset',
+    'bind-new-hashdata-helpers', 'pubalg-if-chain-writer-plus-chain-field-loop', 'priv-sign-temporaries-prehash-helper', 'subpackets-area-helper-join',
+    'signature-fields-join-method-divmod-zip', 'can-sign-or-chain-hasher-keyword', 'subpacket-writers-loops-single-expressions',
+    'sign-helpers-new-keywords-class-table-keyerror'), 1)]
+_G2_TWINS += [('C05-twin%02d' % k, w) for k, w in enumerate((
+    'parse-renames-format-key', 'parse-area-helper', 'area-bytes-helper-is-none-swapped', 'setitem-renames-if-else', 'copy-slice-addnew-continue-init-tuple',
+    'sigv4-parse-setattr-loop', 'setters-class-table-single-store', 'canonical-bytes-field-loop-copy-setattr-loop', 'hashdata-trailer-bytearray-literal',
+    'pgpsig-copy-or-properties-locals', 'bytearray-one-expression-join-generator', 'parse-stop-form-type-name-trailer-extend'), 1)]
+_G2_TWINS += [('R2-twin%02d' % k, w) for k, w in enumerate((
+    'subpackets-container-methods', 'parse-generator-int-from-bytes-explicit-setitem', 'serialisers-inlined-to-bytes-while-pop', 'subpacket-writers-piece-lists',
+    'signature-fields-reduce-closures-shift', 'priv-sign-star-call-keywords', 'setters-for-else-suppress', 'writer-generator-slice-insert',
+    'copy-plan-del-slice-tuple-assign', 'properties-attrgetter-new-table-driven', 'hashdata-piece-list-class-frozensets', 'sign-walrus-generator-unpack',
+    'sign-ladder-certify-closures', 'revoke-closure-dicts-bind-table'), 1)]
+for _n, _what in _G2_TWINS:
+    for _p in ('C02', 'C05'):
+        _TD(_p, 'stress-G2-%s-%s' % (_n, _what), 'G2-%s.diff' % _n)
+for _n, _what, _r in (
+        ('C02-mut01', 'canon-replace-lf', 'C02.1'), ('C02-mut02', 'trailer-length-variable-width', 'C02.1'), ('C02-mut03', 'fingerprint-subpacket-after-hash2', 'C02.2'),
+        ('C02-mut04', 'eddsa-sig-mpi-width', 'C02.4'), ('C02-mut05', 'uid-hashdata-reencoded', 'C02.1b'), ('C02-mut06', 'canonical-bytes-length-early', 'C02.5'),
+        ('C02-mut07', 'sigtype-ids-transposed', 'C02.1'), ('C02-mut08', 'revocable-hashed-by-value', 'C02.3'), ('C02-mut09', 'area-count-from-header-length', 'C02.5'),
+        ('C02-mut10', 'notation-value-length-in-characters', 'C02.6'), ('C02-mut11', 'key-hashdata-secret-header-length', 'C02.1b'),
+        ('C02-mut12', 'revoker-class-octet-without-0x80', 'C02.3'),
+        ('C05-mut01', 'capture-stored-before-hashed-loop', 'C05.1'), ('C05-mut02', 'reset-hoisted-out-of-hashed-branch', 'C05.3'),
+        ('C05-mut03', 'replay-alias-extended-in-place', 'C05.2'), ('C05-mut04', 'copy-refiles-hashed-after-capture', 'C05.3'),
+        ('C05-mut05', 'sigv4-copy-inlines-dict-copies', 'C05.3'), ('C05-mut06', 'unknown-halg-stored-as-invalid', 'C05.5'),
+        ('C05-mut07', 'rsa-ids-normalised', 'C05.5'), ('C05-mut08', 'trailer-length-from-parsed-subpackets', 'C05.4'),
+        ('C05-mut09', 'canonical-bytes-fresh-subpackets', 'C05.4'), ('C05-mut10', 'capture-kept-only-if-length-differs', 'C05.1'),
+        ('C05-mut11', 'update-hlen-drops-capture', 'C05.3')):      # C05-mut12 (sigtype & 0x7f) is the corpus entry 'sigtype-masked'
+    _MD(_n[:3], 'stress-G2-%s-%s' % (_n, _what), 'G2-%s.diff' % _n, _r)
